@@ -333,6 +333,14 @@ def compare_with_log(obs, entry, n_ant):
                         probs.append(("rays", "event %d antenna %d ray %d: %s read back as %r, written %r"
                                       % (entry["idx"], i, r, bad[0], g.get(bad[0]), w[bad[0]])))
                         break
+                # rows beyond this antenna's own number of solutions hold nothing that was recorded: fill values only
+                for r in range(len(exp["rays"][i]), nmax):
+                    g = got[r][i] if i < len(got[r]) else {}
+                    junk = [k for k, val in g.items() if not isinstance(val, str) and not (val == 0 or val != val)]
+                    if junk:
+                        probs.append(("rays-phantom", "event %d antenna %d has %d ray(s) but row %d reads back %s=%r (nothing was recorded there)"
+                                      % (entry["idx"], i, len(exp["rays"][i]), r, junk[0], g[junk[0]])))
+                        break
     else:
         if isinstance(obs["rays"], list) and len(obs["rays"]):
             probs.append(("rays-unrecorded", "event %d: ray data read back although not recorded for this event" % entry["idx"]))
